@@ -4,7 +4,10 @@ import json, os, shutil, subprocess, sys, tempfile, time
 VERIF = '/verif'
 MAP = {'h1': ['C14', 'C17'], 'h2': ['C13', 'C16', 'C15', 'C04'], 'h3': ['C05', 'C02', 'C01'], 'h4': ['C02', 'C07'],
        'h5': ['C02', 'C01', 'C10'], 'h6': ['C07'], 'h7': ['C15'], 'h8': ['C03', 'C18'], 'h9': ['C08', 'C09'], 'h10': ['C01', 'C04'],
-       'h11': ['C04'], 'h12': ['C20'], 'h13': ['C11', 'C12', 'C07']}
+       'h11': ['C04'], 'h12': ['C20'], 'h13': ['C11', 'C12', 'C07'],
+       'h20': ['C05', 'C02'], 'h21': ['C13', 'C04', 'C16'], 'h22': ['C13', 'C17'], 'h23': ['C01'], 'h24': ['C01'], 'h25': ['C07', 'C08'],
+       'h26': ['C01', 'C05', 'C06'], 'h27': ['C12', 'C11'], 'h28': ['C11'], 'h29': ['C10', 'C09'], 'h30': ['C03'], 'h31': ['C04'],
+       'h32': ['C17'], 'h33': ['C20']}
 out_path = VERIF + '/seeded/harmless/results.json'
 results = {}
 only = sys.argv[1:]
